@@ -221,7 +221,14 @@ func c11Run(cs c11Case) (out [][2]string) {
 			if cs.Routing != "none" && cs.Where == "action" {
 				wantNode = "errh"
 			}
-			if r.node != wantNode {
+			// with the looping script in the guard, the (short) action before it runs under the same
+			// context: when that context is already dead, or dies within a millisecond or so, the action
+			// itself may be the one that times out, and is then routed as an action error
+			alsoOK := ""
+			if cs.Where == "guard" && cs.Routing != "none" {
+				alsoOK = "errh"
+			}
+			if r.node != wantNode && (alsoOK == "" || r.node != alsoOK) {
 				out = append(out, [2]string{"timeout-not-routed-like-an-action-error", fmt.Sprintf("execution %d of %d ended at node %q (error %q); expected the %s node", i+1, cs.N, r.node, r.errText, wantNode)})
 			} else if !strings.Contains(r.errText, "timeout") {
 				out = append(out, [2]string{"error-is-not-the-timeout-error", fmt.Sprintf("execution %d of %d ended at %q with error %q", i+1, cs.N, r.node, r.errText)})
